@@ -12,6 +12,8 @@
                                     convert_condition_{and,or,not}, compare_precedence
      sigma/conditions.py            _parse_condition_string (lru_cache) + deep copy in parse()
      sigma/modifiers.py             SigmaModifier._type_hint_cache
+     sigma/processing/transformations/external.py  ExternalSourceBaseTransformation._values_cache /
+                                    _get_values (cache written only after fetch, parse and filter succeeded)
    Object identity that matters is explicit: every processing item object has an id (where it was
    created, position) and an owner link; every "last_processing_pipeline" object has a number.
    Definitions only.  Single-threaded histories. *)
@@ -42,8 +44,10 @@ Definition sadd (k : str) (l : list str) : list str := if smem k l then l else l
 Definition srem (k : str) (l : list str) : list str := filter (fun x => negb (str_eqb k x)) l.
 
 (* ---------- rules ---------- *)
-Inductive vkind := VNum | VStr | VStar | VPh.
-   (* number | plain string | string with trailing wildcard (also `|startswith`) | unresolved placeholder *)
+Inductive vkind := VNum | VStr | VStar | VPh | VRe | VNull | VStrs (l : list str).
+   (* number | plain string | string with trailing wildcard (also `|startswith`) | unresolved placeholder
+      (di_text = its name) | regular expression | no value at all | list of plain strings (a placeholder
+      after replacement; [] renders as null, one value as that string, more as an OR) *)
 Record ditem := { di_field : str; di_text : str; di_kind : vkind }.
 Inductive ptree := PId (n : str) | PNot (t : ptree) | PAnd (l : list ptree) | POr (l : list ptree).
 Record rule := {
@@ -51,11 +55,13 @@ Record rule := {
   r_mods : list N;                     (* modifier classes whose type hint is resolved while loading *)
   r_product : N;                       (* 0 none, 1 windows, 2 linux *)
   r_dets : list (str * list ditem);    (* detections: name -> AND-linked map of field: value *)
-  r_conds : list str }.                (* condition strings *)
+  r_conds : list str;                  (* condition strings *)
+  r_fields : list str }.               (* the rule's `fields` attribute *)
 
 (* ---------- pipelines ---------- *)
 Inductive rcond := RAlways | RProduct (p : N) | RState (k v : str).
-Inductive trans := TSetState (k v : str) | TFieldMap (m : list (str * str)) | TFail.
+Inductive trans := TSetState (k v : str) | TFieldMap (m : list (str * str)) | TFail | TFile (d : N).
+   (* TFile d: file_placeholders transformation reading external source d *)
 Record item := { i_id : str; i_cond : rcond; i_tr : trans }.
    (* identifier: given, or generated from a hash of the definition in __post_init__ - never empty *)
 
@@ -64,8 +70,10 @@ Record pstate := {                     (* the fields reset by ProcessingPipeline
   ps_ids : list str;
   ps_state : list (str * str);
   ps_fmap : list (str * list str);     (* FieldMappingTracking: source -> targets *)
-  ps_rev : list (str * list str) }.    (* FieldMappingTracking.target_fields *)
-Definition ps0 : pstate := {| ps_applied := []; ps_ids := []; ps_state := []; ps_fmap := []; ps_rev := [] |}.
+  ps_rev : list (str * list str);      (* FieldMappingTracking.target_fields *)
+  ps_fna : list (str * list str) }.    (* field_name_applied_ids: field of rule.fields -> items applied *)
+Definition ps0 : pstate :=
+  {| ps_applied := []; ps_ids := []; ps_state := []; ps_fmap := []; ps_rev := []; ps_fna := [] |}.
 
 Definition E_Transformation : N := 7.
 
@@ -84,17 +92,23 @@ Definition add_mapping (s t : str) (ps : pstate) : pstate :=
     end in
   {| ps_applied := ps_applied ps; ps_ids := ps_ids ps; ps_state := ps_state ps;
      ps_fmap := set_assoc s (sadd t (getd [] s fm1)) fm1;
-     ps_rev := set_assoc t (sadd s (getd [] t rv1)) rv1 |}.
+     ps_rev := set_assoc t (sadd s (getd [] t rv1)) rv1; ps_fna := ps_fna ps |}.
+
+(* ProcessingPipeline.track_field_processing_items for a 1:1 mapping of a name in rule.fields *)
+Definition track_field (id : str) (src dst : str) (ps : pstate) : pstate :=
+  if str_eqb src dst then ps else
+  {| ps_applied := ps_applied ps; ps_ids := ps_ids ps; ps_state := ps_state ps; ps_fmap := ps_fmap ps; ps_rev := ps_rev ps;
+     ps_fna := set_assoc dst (sadd id (getd [] src (ps_fna ps))) (del_assoc src (ps_fna ps)) |}.
 
 Definition set_state (k v : str) (ps : pstate) : pstate :=
   {| ps_applied := ps_applied ps; ps_ids := ps_ids ps; ps_state := set_assoc k v (ps_state ps);
-     ps_fmap := ps_fmap ps; ps_rev := ps_rev ps |}.
+     ps_fmap := ps_fmap ps; ps_rev := ps_rev ps; ps_fna := ps_fna ps |}.
 
 (* ProcessingPipeline.apply l.921-925: applied.append(...), applied_ids.add(identifier) *)
 Definition note_applied (it : item) (m : bool) (ps : pstate) : pstate :=
   {| ps_applied := ps_applied ps ++ [m];
      ps_ids := if m then sadd (i_id it) (ps_ids ps) else ps_ids ps;
-     ps_state := ps_state ps; ps_fmap := ps_fmap ps; ps_rev := ps_rev ps |}.
+     ps_state := ps_state ps; ps_fmap := ps_fmap ps; ps_rev := ps_rev ps; ps_fna := ps_fna ps |}.
 
 Definition eval_rcond (rd : pstate) (r : rule) (c : rcond) : bool :=
   match c with
@@ -111,21 +125,48 @@ Definition mapped_pairs (m : list (str * str)) (r : rule) : list (str * str) :=
   flat_map (fun nd => flat_map (fun d => match lookup (di_field d) m with
                                          | Some f' => [(di_field d, f')] | None => [] end) (snd nd))
            (r_dets r).
+Definition mapped_fields (m : list (str * str)) (r : rule) : list (str * str) :=
+  flat_map (fun f => match lookup f m with Some f' => [(f, f')] | None => [] end) (r_fields r).
 Definition map_rule (m : list (str * str)) (r : rule) : rule :=
   {| r_bad := r_bad r; r_mods := r_mods r; r_product := r_product r;
-     r_dets := map (fun nd => (fst nd, map (map_item m) (snd nd))) (r_dets r); r_conds := r_conds r |}.
+     r_dets := map (fun nd => (fst nd, map (map_item m) (snd nd))) (r_dets r); r_conds := r_conds r;
+     r_fields := map (fun f => getd f f m) (r_fields r) |}.
+
+(* placeholder replacement (BasePlaceholderTransformation.apply_value): every value with a placeholder
+   becomes the list of replacement values *)
+Definition is_ph (d : ditem) : bool := match di_kind d with VPh => true | _ => false end.
+Definition rule_has_ph (r : rule) : bool := existsb (fun nd => existsb is_ph (snd nd)) (r_dets r).
+Definition expand_item (vs : list str) (d : ditem) : ditem :=
+  if is_ph d then {| di_field := di_field d; di_text := []; di_kind := VStrs vs |} else d.
+Definition expand_rule (vs : list str) (r : rule) : rule :=
+  {| r_bad := r_bad r; r_mods := r_mods r; r_product := r_product r;
+     r_dets := map (fun nd => (fst nd, map (expand_item vs) (snd nd))) (r_dets r); r_conds := r_conds r;
+     r_fields := r_fields r |}.
 
 (* one processing item on one rule: what it reads from / writes to the pipeline object its owner
-   link points to, and what it does to the rule *)
+   link points to, and what it does to the rule.  vals: what _get_values() of this transformation
+   object returns or raises (only looked at by wants_values items) *)
 Record istep := { is_match : bool; is_upd : pstate -> pstate; is_res : rule + N }.
-Definition item_step (rd : pstate) (r : rule) (it : item) : istep :=
+Definition wants_values (rd : pstate) (r : rule) (it : item) : bool :=
+  eval_rcond rd r (i_cond it) && match i_tr it with TFile _ => rule_has_ph r | _ => false end.
+Definition item_step (rd : pstate) (r : rule) (it : item) (vals : outcome (list str)) : istep :=
   if eval_rcond rd r (i_cond it) then
     match i_tr it with
     | TSetState k v => {| is_match := true; is_upd := set_state k v; is_res := inl r |}
     | TFieldMap m => {| is_match := true;
-                        is_upd := fun ps => fold_left (fun ps p => add_mapping (fst p) (snd p) ps) (mapped_pairs m r) ps;
+                        is_upd := fun ps => fold_left (fun ps p => add_mapping (fst p) (snd p) ps) (mapped_pairs m r)
+                                              (fold_left (fun ps p => track_field (i_id it) (fst p) (snd p) ps) (mapped_fields m r) ps);
                         is_res := inl (map_rule m r) |}
     | TFail => {| is_match := true; is_upd := fun ps => ps; is_res := inr E_Transformation |}
+    | TFile _ =>
+        {| is_match := true; is_upd := fun ps => ps;
+           is_res := if rule_has_ph r then
+                       match vals with
+                       | Ok vs => inl (expand_rule vs r)
+                       | SigmaErr e => inr e
+                       | Crash e => inr e
+                       end
+                     else inl r |}
     end
   else {| is_match := false; is_upd := fun ps => ps; is_res := inl r |}.
 
@@ -147,7 +188,10 @@ Record env := {
   e_bk : N -> list item;               (* class-level backend pipeline *)
   e_fmt : N -> N -> list item;         (* class-level output format pipelines *)
   e_user : N -> list item;             (* user pipeline objects (one definition each) *)
-  e_parse : str -> option ptree }.     (* what the condition grammar yields (C02); None: ParseException *)
+  e_parse : str -> option ptree;       (* what the condition grammar yields (C02); None: ParseException *)
+  e_src : N -> outcome (list str);     (* external source d, fetched + parsed + filtered now: values, or the
+                                          error of the stage that fails (security / fetch / parse) *)
+  e_files : list iid }.                (* file_placeholders item objects whose cache is reported *)
 
 Definition tagp (s : src) (its : list item) : list (iid * item) :=
   combine (map (fun k => (s, k)) (seq 0 (List.length its))) its.
@@ -158,9 +202,12 @@ Definition pipe_pairs (E : env) (cls : N) (user : option N) (fmt : N) : list (ii
   tagp (SFmt cls fmt) (e_fmt E cls fmt).
 
 (* ---------- the world ---------- *)
-Definition tpls := (N * N)%type.      (* class attributes eq_expression, startswith_expression: template ids *)
-Definition tpl0 : tpls := (0, 2).
-Definition tpl_neg : tpls := (1, 3).  (* not_eq_expression, not_startswith_expression *)
+Definition tpls := (N * N * N)%type.  (* class attributes eq_expression, startswith_expression, re_expression: template ids *)
+Definition t_eq (t : tpls) : N := fst (fst t).
+Definition t_sw (t : tpls) : N := snd (fst t).
+Definition t_re (t : tpls) : N := snd t.
+Definition tpl0 : tpls := (0, 2, 4).
+Definition tpl_neg : tpls := (1, 3, 5).  (* not_eq_expression, not_startswith_expression, not_re_expression = None *)
 
 Record backend := { b_cls : N; b_user : option N; b_collect : bool; b_last : option (nat * N) }.
    (* b_last: number of the last_processing_pipeline object and the format it was built for *)
@@ -172,47 +219,74 @@ Record world := {
   w_tpl : N -> tpls;                   (* backend class attributes *)
   w_owner : iid -> option nat;         (* item._pipeline (None: a pipeline that is never applied) *)
   w_ps : nat -> pstate;                (* per-rule fields of each last_processing_pipeline object *)
+  w_vc : iid -> option (list str);     (* _values_cache of each external-source transformation object *)
   w_next : nat;
   w_bks : list backend }.
 
 Definition init : world :=
   {| w_cache := []; w_hits := 0; w_miss := 0; w_hints := []; w_tpl := fun _ => tpl0;
-     w_owner := fun _ => None; w_ps := fun _ => ps0; w_next := 0%nat; w_bks := [] |}.
+     w_owner := fun _ => None; w_ps := fun _ => ps0; w_vc := fun _ => None; w_next := 0%nat; w_bks := [] |}.
 
 Definition set_ps (w : world) (p : nat) (v : pstate) : world :=
   {| w_cache := w_cache w; w_hits := w_hits w; w_miss := w_miss w; w_hints := w_hints w;
      w_tpl := w_tpl w; w_owner := w_owner w;
-     w_ps := fun q => if Nat.eqb q p then v else w_ps w q; w_next := w_next w; w_bks := w_bks w |}.
+     w_ps := fun q => if Nat.eqb q p then v else w_ps w q; w_vc := w_vc w; w_next := w_next w; w_bks := w_bks w |}.
 Definition set_tplw (w : world) (tp : N -> tpls) : world :=
   {| w_cache := w_cache w; w_hits := w_hits w; w_miss := w_miss w; w_hints := w_hints w;
-     w_tpl := tp; w_owner := w_owner w; w_ps := w_ps w; w_next := w_next w; w_bks := w_bks w |}.
+     w_tpl := tp; w_owner := w_owner w; w_ps := w_ps w; w_vc := w_vc w; w_next := w_next w; w_bks := w_bks w |}.
 Definition set_bks (w : world) (l : list backend) : world :=
   {| w_cache := w_cache w; w_hits := w_hits w; w_miss := w_miss w; w_hints := w_hints w;
-     w_tpl := w_tpl w; w_owner := w_owner w; w_ps := w_ps w; w_next := w_next w; w_bks := l |}.
+     w_tpl := w_tpl w; w_owner := w_owner w; w_ps := w_ps w; w_vc := w_vc w; w_next := w_next w; w_bks := l |}.
 Definition set_hints (w : world) (l : list N) : world :=
   {| w_cache := w_cache w; w_hits := w_hits w; w_miss := w_miss w; w_hints := l;
-     w_tpl := w_tpl w; w_owner := w_owner w; w_ps := w_ps w; w_next := w_next w; w_bks := w_bks w |}.
+     w_tpl := w_tpl w; w_owner := w_owner w; w_ps := w_ps w; w_vc := w_vc w; w_next := w_next w; w_bks := w_bks w |}.
 Definition set_cache (w : world) (c : list (str * ptree)) (h m : N) : world :=
   {| w_cache := c; w_hits := h; w_miss := m; w_hints := w_hints w;
-     w_tpl := w_tpl w; w_owner := w_owner w; w_ps := w_ps w; w_next := w_next w; w_bks := w_bks w |}.
+     w_tpl := w_tpl w; w_owner := w_owner w; w_ps := w_ps w; w_vc := w_vc w; w_next := w_next w; w_bks := w_bks w |}.
 
 Definition rd_owner (w : world) (o : option nat) : pstate :=
   match o with Some p => w_ps w p | None => ps0 end.
 Definition wr_owner (w : world) (o : option nat) (f : pstate -> pstate) : world :=
   match o with Some p => set_ps w p (f (w_ps w p)) | None => w end.
 
+Definition set_vc (w : world) (i : iid) (v : list str) : world :=
+  {| w_cache := w_cache w; w_hits := w_hits w; w_miss := w_miss w; w_hints := w_hints w;
+     w_tpl := w_tpl w; w_owner := w_owner w; w_ps := w_ps w;
+     w_vc := fun j => if iid_eqb j i then Some v else w_vc w j; w_next := w_next w; w_bks := w_bks w |}.
+(* ExternalSourceBaseTransformation._get_values of transformation object i reading source d: the cache is
+   consulted first; it is written only when security check, fetch, parse and filter all succeeded *)
+Definition get_values (E : env) (w : world) (i : iid) (d : N) : world * outcome (list str) :=
+  match w_vc w i with
+  | Some v => (w, Ok v)
+  | None => match e_src E d with
+            | Ok v => (set_vc w i v, Ok v)
+            | SigmaErr e => (w, SigmaErr e)
+            | Crash e => (w, Crash e)
+            end
+  end.
+
+(* what the transformation of item object i gets from _get_values(), if it asks at all *)
+Definition fetch_vals (E : env) (w : world) (i : iid) (it : item) (rd : pstate) (r : rule)
+  : world * outcome (list str) :=
+  match i_tr it with
+  | TFile d => if wants_values rd r it then get_values E w i d else (w, Ok [])
+  | _ => (w, Ok [])
+  end.
+
 (* the loop of ProcessingPipeline.apply on pipeline object L: conditions and transformations work
    on the pipeline their owner link points to, `applied`/`applied_ids` are those of L *)
-Fixpoint apply_items (w : world) (L : nat) (r : rule) (its : list (iid * item)) : world * (rule + N) :=
+Fixpoint apply_items (E : env) (w : world) (L : nat) (r : rule) (its : list (iid * item)) : world * (rule + N) :=
   match its with
   | [] => (w, inl r)
   | (i, it) :: rest =>
       let o := w_owner w i in
-      let st := item_step (rd_owner w o) r it in
-      let w1 := wr_owner w o (is_upd st) in
+      let rd := rd_owner w o in
+      let '(w0, vals) := fetch_vals E w i it rd r in
+      let st := item_step rd r it vals in
+      let w1 := wr_owner w0 o (is_upd st) in
       match is_res st with
       | inr e => (w1, inr e)
-      | inl r' => apply_items (set_ps w1 L (note_applied it (is_match st) (w_ps w1 L))) L r' rest
+      | inl r' => apply_items E (set_ps w1 L (note_applied it (is_match st) (w_ps w1 L))) L r' rest
       end
   end.
 
@@ -230,6 +304,7 @@ Definition init_pipeline (E : env) (w : world) (b : nat) (bk : backend) (fmt : N
      w_tpl := w_tpl w;
      w_owner := fun i => if existsb (iid_eqb i) ids then Some L else w_owner w i;
      w_ps := fun q => if Nat.eqb q L then ps0 else w_ps w q;
+     w_vc := w_vc w;
      w_next := S L;
      w_bks := set_nth b {| b_cls := b_cls bk; b_user := b_user bk; b_collect := b_collect bk;
                            b_last := Some (L, fmt) |} (w_bks w) |}.
@@ -255,13 +330,21 @@ Definition omap {A B} (f : A -> outcome B) : list A -> outcome (list B) :=
     | [] => Ok []
     | x :: r => obind (f x) (fun y => obind (go r) (fun ys => Ok (y :: ys)))
     end.
+(* SigmaDetectionItem.postprocess: no value -> field is null, one value -> that value, more -> OR *)
+Definition leaf_of (d : ditem) : ctree :=
+  match di_kind d with
+  | VStrs [] => CLeaf {| di_field := di_field d; di_text := []; di_kind := VNull |}
+  | VStrs [v] => CLeaf {| di_field := di_field d; di_text := v; di_kind := VStr |}
+  | VStrs vs => COr (map (fun v => CLeaf {| di_field := di_field d; di_text := v; di_kind := VStr |}) vs)
+  | _ => CLeaf d
+  end.
 (* postprocess(): identifiers are replaced by the rule's detections *)
 Fixpoint resolve (dets : list (str * list ditem)) (t : ptree) : outcome ctree :=
   match t with
   | PId n => match lookup n dets with
              | None => SigmaErr E_Condition
-             | Some [d] => Ok (CLeaf d)
-             | Some ds => Ok (CAnd (map CLeaf ds))
+             | Some [d] => Ok (leaf_of d)
+             | Some ds => Ok (CAnd (map leaf_of ds))
              end
   | PNot a => obind (resolve dets a) (fun c => Ok (CNot c))
   | PAnd l => obind (omap (resolve dets) l) (fun cs => Ok (CAnd cs))
@@ -280,9 +363,13 @@ Definition quote (s : str) : str := lit """" ++ s ++ lit """".
 Definition leaf_text (tp : tpls) (d : ditem) : outcome str :=
   match di_kind d with
   | VNum => Ok (di_field d ++ lit "=" ++ di_text d)
-  | VStr => Ok (tpl_render (fst tp) (di_field d) (quote (di_text d)))
-  | VStar => Ok (tpl_render (snd tp) (di_field d) (quote (di_text d)))
+  | VStr => Ok (tpl_render (t_eq tp) (di_field d) (quote (di_text d)))
+  | VStar => Ok (tpl_render (t_sw tp) (di_field d) (quote (di_text d)))
   | VPh => SigmaErr E_Placeholder
+  | VRe => if N.eqb (t_re tp) 4 then Ok (di_field d ++ lit "=/" ++ di_text d ++ lit "/")
+           else Crash 1          (* re_expression is None while swapped: NotImplementedError *)
+  | VNull => Ok (di_field d ++ lit " is null")
+  | VStrs _ => Crash 1           (* unreachable: leaf_of splits value lists *)
   end.
 Definition set_tpl (tp : N -> tpls) (cls : N) (v : tpls) : N -> tpls :=
   fun c => if N.eqb c cls then v else tp c.
@@ -373,7 +460,7 @@ Fixpoint conv_conds (E : env) (cls : N) (dets : list (str * list ditem)) (w : wo
 Definition conv_with (E : env) (w : world) (L : nat) (lfmt : N) (bk : backend) (fmt : N) (r : rule)
   : world * outcome (list str) :=
   let w2 := set_ps w L ps0 in
-  let '(w3, res) := apply_items w2 L r (pipe_pairs E (b_cls bk) (b_user bk) lfmt) in
+  let '(w3, res) := apply_items E w2 L r (pipe_pairs E (b_cls bk) (b_user bk) lfmt) in
   match res with
   | inr e => (w3, SigmaErr e)
   | inl r' =>
@@ -400,7 +487,8 @@ Record obs := {                       (* what the caller of the API sees *)
   o_res : outcome (list str);         (* queries / raised error *)
   o_errs : list N;                    (* errors appended to backend.errors by this operation *)
   o_snap : option pstate }.           (* bookkeeping of the backend's last_processing_pipeline *)
-Record out := { out_obs : obs; out_hits : N; out_miss : N; out_hints : list N; out_tpl_ok : bool }.
+Record out := { out_obs : obs; out_hits : N; out_miss : N; out_hints : list N; out_tpl_ok : bool;
+                out_vc : list (option (list str)) }.
 
 Definition load (w : world) (r : rule) : world :=
   set_hints w (fold_left (fun h m => if existsb (N.eqb m) h then h else h ++ [m]) (r_mods r) (w_hints w)).
@@ -431,35 +519,36 @@ Fixpoint conv_rules (E : env) (w : world) (b : nat) (fmt : N) (collect : bool) (
   end.
 
 Definition classes_probe : list N := [0; 1; 2; 3; 4; 5; 6; 7].
-Definition mk_out (w : world) (o : obs) : out :=
+Definition mk_out (E : env) (w : world) (o : obs) : out :=
   {| out_obs := o; out_hits := w_hits w; out_miss := w_miss w; out_hints := w_hints w;
-     out_tpl_ok := forallb (fun c => N.eqb (fst (w_tpl w c)) 0 && N.eqb (snd (w_tpl w c)) 2) classes_probe |}.
+     out_tpl_ok := forallb (fun c => N.eqb (t_eq (w_tpl w c)) 0 && N.eqb (t_sw (w_tpl w c)) 2 && N.eqb (t_re (w_tpl w c)) 4) classes_probe;
+     out_vc := map (w_vc w) (e_files E) |}.
 Definition ok_obs (s : option pstate) : obs := {| o_res := Ok []; o_errs := []; o_snap := s |}.
 
 Definition step (E : env) (w : world) (o : op) : world * out :=
   match o with
   | OLoad r =>
       let w1 := load w r in
-      (w1, mk_out w1 {| o_res := match r_bad r with Some t => SigmaErr t | None => Ok [] end;
+      (w1, mk_out E w1 {| o_res := match r_bad r with Some t => SigmaErr t | None => Ok [] end;
                         o_errs := []; o_snap := None |})
   | ONew cls user collect =>
       let w1 := set_bks w (w_bks w ++ [{| b_cls := cls; b_user := user; b_collect := collect; b_last := None |}]) in
-      (w1, mk_out w1 (ok_obs None))
+      (w1, mk_out E w1 (ok_obs None))
   | OInit b fmt =>
       match nth_error (w_bks w) b with
-      | None => (w, mk_out w {| o_res := Crash 1; o_errs := []; o_snap := None |})
-      | Some bk => let w1 := init_pipeline E w b bk fmt in (w1, mk_out w1 (ok_obs (snap w1 b)))
+      | None => (w, mk_out E w {| o_res := Crash 1; o_errs := []; o_snap := None |})
+      | Some bk => let w1 := init_pipeline E w b bk fmt in (w1, mk_out E w1 (ok_obs (snap w1 b)))
       end
   | OConvColl b rs fmt =>
       match nth_error (w_bks w) b with
-      | None => (w, mk_out w {| o_res := Crash 1; o_errs := []; o_snap := None |})
+      | None => (w, mk_out E w {| o_res := Crash 1; o_errs := []; o_snap := None |})
       | Some bk =>
           let '(w1, q, errs) := conv_rules E (init_pipeline E (fold_left load rs w) b bk fmt) b fmt (b_collect bk) rs [] [] in
-          (w1, mk_out w1 {| o_res := q; o_errs := errs; o_snap := snap w1 b |})
+          (w1, mk_out E w1 {| o_res := q; o_errs := errs; o_snap := snap w1 b |})
       end
   | OConvRule b r fmt =>
       match nth_error (w_bks w) b with
-      | None => (w, mk_out w {| o_res := Crash 1; o_errs := []; o_snap := None |})
+      | None => (w, mk_out E w {| o_res := Crash 1; o_errs := []; o_snap := None |})
       | Some bk =>
           let '(w1, q) := conv_rule_raw E (load w r) b bk fmt r in
           let o := match q with
@@ -467,7 +556,7 @@ Definition step (E : env) (w : world) (o : op) : world * out :=
                                    else {| o_res := q; o_errs := []; o_snap := snap w1 b |}
                    | _ => {| o_res := q; o_errs := []; o_snap := snap w1 b |}
                    end in
-          (w1, mk_out w1 o)
+          (w1, mk_out E w1 o)
       end
   end.
 
